@@ -18,8 +18,9 @@
   Order (Proofs/CalcPerm.lean, CalcGroups.lean, CalcPermTax.lean): document
   sums and every tax group's base, amount and surcharge (as amounts: value and
   precision) are independent of the order of the rows.
+  So is every category amount (`category_amount_perm_invariant`).
   Not proved (metamorphic checks on the real code only): order independence
-  of the category and tax totals as whole sums, and `remove_included_payable`.
+  of the tax total as a whole sum over categories, and `remove_included_payable`.
 -/
 import GoblVerif.Spec.C17
 import GoblVerif.Generated.CalcFacts
@@ -139,6 +140,14 @@ theorem group_figures_perm_invariant (r : Rule) (c : ℕ) (cat : String) (k : Ke
     (findGroup cat k ((baseRateTotals exactOps r c rows).map (catAmounts exactOps r c))).map groupView =
       (findGroup cat k ((baseRateTotals exactOps r c rows').map (catAmounts exactOps r c))).map groupView :=
   group_view_perm r c cat k rows rows' h
+
+/-- **Reordering rows changes no category amount**: the amount of every tax category (the sum of its
+groups' amounts; 0 when the summary has no such category) is the same for every order of the rows. -/
+theorem category_amount_perm_invariant (r : Rule) (c : ℕ) (cat : String) (rows rows' : List Row)
+    (h : rows.Perm rows') :
+    catAmountQ cat ((baseRateTotals exactOps r c rows).map (catAmounts exactOps r c)) =
+      catAmountQ cat ((baseRateTotals exactOps r c rows').map (catAmounts exactOps r c)) :=
+  catAmountQ_perm r c cat rows rows' h
 
 /-- non-vacuity: two rows at 21 % and one at 10 %; putting the 10 % row first swaps the two groups and
 changes none of their figures (21 %: base 300.0000, amount 63.0000; 10 %: base 50.00, amount 5.00) -/
